@@ -1,0 +1,508 @@
+//! Verification hooks (only compiled with `--cfg rufsm_verif`).\
+//! API-compatible stand-ins for the `std::sync`, `std::thread` and `timer` items used by this crate.
+//! Without an installed [Runtime] (or on threads the runtime does not control) every item behaves
+//! exactly like the original. With a runtime, every blocking or visible operation is announced to it
+//! first, which lets a test harness decide the interleaving of the threads and the firing of timers.
+
+#![allow(dead_code)]
+
+use std::fmt;
+use std::ops::{Deref, DerefMut};
+use std::sync::atomic::{AtomicU64, Ordering as AO};
+pub use std::sync::{Arc, LockResult, PoisonError, TryLockError, TryLockResult};
+use std::sync::{OnceLock, RwLock};
+
+/// Implemented by the verification harness.
+pub trait Runtime: Send + Sync {
+    /// true if the calling thread is under control of the runtime
+    fn controls_current_thread(&self) -> bool;
+    fn new_object(&self, kind: &'static str) -> u64;
+    /// returns when the calling thread logically owns the mutex
+    fn mutex_lock(&self, id: u64);
+    fn mutex_try_lock(&self, id: u64) -> bool;
+    fn mutex_unlock(&self, id: u64);
+    fn chan_send(&self, id: u64);
+    /// returns true when an item can be taken, false when all senders are gone
+    fn chan_recv(&self, id: u64) -> bool;
+    fn chan_sender_clone(&self, id: u64);
+    fn chan_sender_drop(&self, id: u64);
+    fn chan_receiver_drop(&self, id: u64);
+    fn atomic_op(&self, id: u64);
+    /// starts a controlled thread, returns its token
+    fn spawn(&self, name: Option<String>, f: Box<dyn FnOnce() + Send + 'static>) -> u64;
+    /// waits (logically) for the thread; returns false if it panicked
+    fn join(&self, token: u64) -> bool;
+    fn timer_new(&self) -> u64;
+    fn timer_schedule(&self, timer: u64, delay_ms: i64, cb: Box<dyn FnMut() + Send + 'static>) -> u64;
+    fn timer_cancel(&self, item: u64);
+    fn timer_drop(&self, timer: u64);
+}
+
+static RUNTIME: OnceLock<RwLock<Option<Arc<dyn Runtime>>>> = OnceLock::new();
+
+/// Installs (or removes) the runtime.
+pub fn install(rt: Option<Arc<dyn Runtime>>) {
+    let cell = RUNTIME.get_or_init(|| RwLock::new(None));
+    *cell.write().unwrap_or_else(|e| e.into_inner()) = rt;
+}
+
+fn rt() -> Option<Arc<dyn Runtime>> {
+    let cell = RUNTIME.get()?;
+    let g = cell.read().unwrap_or_else(|e| e.into_inner());
+    match &*g {
+        Some(r) if r.controls_current_thread() => Some(r.clone()),
+        _ => None,
+    }
+}
+
+fn object_id(slot: &AtomicU64, kind: &'static str, r: &Arc<dyn Runtime>) -> u64 {
+    let v = slot.load(AO::Relaxed);
+    if v != 0 {
+        return v;
+    }
+    let n = r.new_object(kind);
+    slot.store(n, AO::Relaxed);
+    n
+}
+
+// ---------------------------------------------------------------------------------------- Mutex
+
+pub struct Mutex<T: ?Sized> {
+    id: AtomicU64,
+    inner: std::sync::Mutex<T>,
+}
+
+pub struct MutexGuard<'a, T: ?Sized + 'a> {
+    guard: Option<std::sync::MutexGuard<'a, T>>,
+    release: Option<(Arc<dyn Runtime>, u64)>,
+}
+
+impl<T> Mutex<T> {
+    pub const fn new(t: T) -> Mutex<T> {
+        Mutex {
+            id: AtomicU64::new(0),
+            inner: std::sync::Mutex::new(t),
+        }
+    }
+}
+
+impl<T: ?Sized> Mutex<T> {
+    pub fn lock(&self) -> LockResult<MutexGuard<'_, T>> {
+        let release = rt().map(|r| {
+            let id = object_id(&self.id, "mutex", &r);
+            r.mutex_lock(id);
+            (r, id)
+        });
+        match self.inner.lock() {
+            Ok(g) => Ok(MutexGuard {
+                guard: Some(g),
+                release,
+            }),
+            Err(p) => Err(PoisonError::new(MutexGuard {
+                guard: Some(p.into_inner()),
+                release,
+            })),
+        }
+    }
+
+    pub fn try_lock(&self) -> TryLockResult<MutexGuard<'_, T>> {
+        let release = match rt() {
+            Some(r) => {
+                let id = object_id(&self.id, "mutex", &r);
+                if !r.mutex_try_lock(id) {
+                    return Err(TryLockError::WouldBlock);
+                }
+                Some((r, id))
+            }
+            None => None,
+        };
+        match self.inner.try_lock() {
+            Ok(g) => Ok(MutexGuard {
+                guard: Some(g),
+                release,
+            }),
+            Err(TryLockError::Poisoned(p)) => Err(TryLockError::Poisoned(PoisonError::new(MutexGuard {
+                guard: Some(p.into_inner()),
+                release,
+            }))),
+            Err(TryLockError::WouldBlock) => {
+                if let Some((r, id)) = release {
+                    r.mutex_unlock(id);
+                }
+                Err(TryLockError::WouldBlock)
+            }
+        }
+    }
+
+    pub fn is_poisoned(&self) -> bool {
+        self.inner.is_poisoned()
+    }
+}
+
+impl<T> From<T> for Mutex<T> {
+    fn from(t: T) -> Self {
+        Mutex::new(t)
+    }
+}
+
+impl<T: Default> Default for Mutex<T> {
+    fn default() -> Self {
+        Mutex::new(T::default())
+    }
+}
+
+impl<T: ?Sized + fmt::Debug> fmt::Debug for Mutex<T> {
+    fn fmt(&self, f: &mut fmt::Formatter<'_>) -> fmt::Result {
+        fmt::Debug::fmt(&self.inner, f)
+    }
+}
+
+impl<T: ?Sized> Deref for MutexGuard<'_, T> {
+    type Target = T;
+    fn deref(&self) -> &T {
+        self.guard.as_ref().unwrap()
+    }
+}
+
+impl<T: ?Sized> DerefMut for MutexGuard<'_, T> {
+    fn deref_mut(&mut self) -> &mut T {
+        self.guard.as_mut().unwrap()
+    }
+}
+
+impl<T: ?Sized> Drop for MutexGuard<'_, T> {
+    fn drop(&mut self) {
+        // release the real lock first, then the logical one
+        self.guard.take();
+        if let Some((r, id)) = self.release.take() {
+            r.mutex_unlock(id);
+        }
+    }
+}
+
+impl<T: ?Sized + fmt::Debug> fmt::Debug for MutexGuard<'_, T> {
+    fn fmt(&self, f: &mut fmt::Formatter<'_>) -> fmt::Result {
+        fmt::Debug::fmt(&**self, f)
+    }
+}
+
+impl<T: ?Sized + fmt::Display> fmt::Display for MutexGuard<'_, T> {
+    fn fmt(&self, f: &mut fmt::Formatter<'_>) -> fmt::Result {
+        fmt::Display::fmt(&**self, f)
+    }
+}
+
+// ---------------------------------------------------------------------------------------- atomic
+
+pub mod atomic {
+    pub use std::sync::atomic::Ordering;
+    use std::sync::atomic::{AtomicU64, Ordering as AO};
+
+    pub struct AtomicU32 {
+        id: AtomicU64,
+        inner: std::sync::atomic::AtomicU32,
+    }
+
+    impl AtomicU32 {
+        pub const fn new(v: u32) -> AtomicU32 {
+            AtomicU32 {
+                id: AtomicU64::new(0),
+                inner: std::sync::atomic::AtomicU32::new(v),
+            }
+        }
+        fn point(&self) {
+            if let Some(r) = super::rt() {
+                let id = super::object_id(&self.id, "atomic", &r);
+                r.atomic_op(id);
+            }
+        }
+        pub fn fetch_add(&self, v: u32, o: Ordering) -> u32 {
+            self.point();
+            self.inner.fetch_add(v, o)
+        }
+        pub fn load(&self, o: Ordering) -> u32 {
+            self.point();
+            self.inner.load(o)
+        }
+        pub fn store(&self, v: u32, o: Ordering) {
+            self.point();
+            self.inner.store(v, o)
+        }
+        fn _unused(&self) {
+            let _ = AO::Relaxed;
+        }
+    }
+
+    pub struct AtomicUsize {
+        id: AtomicU64,
+        inner: std::sync::atomic::AtomicUsize,
+    }
+
+    impl AtomicUsize {
+        pub const fn new(v: usize) -> AtomicUsize {
+            AtomicUsize {
+                id: AtomicU64::new(0),
+                inner: std::sync::atomic::AtomicUsize::new(v),
+            }
+        }
+        fn point(&self) {
+            if let Some(r) = super::rt() {
+                let id = super::object_id(&self.id, "atomic", &r);
+                r.atomic_op(id);
+            }
+        }
+        pub fn fetch_add(&self, v: usize, o: Ordering) -> usize {
+            self.point();
+            self.inner.fetch_add(v, o)
+        }
+        pub fn load(&self, o: Ordering) -> usize {
+            self.point();
+            self.inner.load(o)
+        }
+        pub fn store(&self, v: usize, o: Ordering) {
+            self.point();
+            self.inner.store(v, o)
+        }
+    }
+}
+
+// ---------------------------------------------------------------------------------------- mpsc
+
+pub mod mpsc {
+    pub use std::sync::mpsc::{RecvError, SendError};
+    use std::fmt;
+    use std::sync::atomic::AtomicU64;
+    use std::sync::Arc;
+
+    struct Id(AtomicU64);
+
+    pub struct Sender<T> {
+        inner: std::sync::mpsc::Sender<T>,
+        id: Arc<Id>,
+    }
+
+    pub struct Receiver<T> {
+        inner: std::sync::mpsc::Receiver<T>,
+        id: Arc<Id>,
+    }
+
+    pub fn channel<T>() -> (Sender<T>, Receiver<T>) {
+        let (s, r) = std::sync::mpsc::channel();
+        let id = Arc::new(Id(AtomicU64::new(0)));
+        if let Some(rt) = super::rt() {
+            // register now: the runtime counts senders from the creation on
+            super::object_id(&id.0, "channel", &rt);
+        }
+        (Sender { inner: s, id: id.clone() }, Receiver { inner: r, id })
+    }
+
+    impl<T> Sender<T> {
+        pub fn send(&self, t: T) -> Result<(), SendError<T>> {
+            if let Some(rt) = super::rt() {
+                let id = super::object_id(&self.id.0, "channel", &rt);
+                rt.chan_send(id);
+            }
+            self.inner.send(t)
+        }
+    }
+
+    impl<T> Clone for Sender<T> {
+        fn clone(&self) -> Self {
+            if let Some(rt) = super::rt() {
+                let id = super::object_id(&self.id.0, "channel", &rt);
+                rt.chan_sender_clone(id);
+            }
+            Sender {
+                inner: self.inner.clone(),
+                id: self.id.clone(),
+            }
+        }
+    }
+
+    impl<T> Drop for Sender<T> {
+        fn drop(&mut self) {
+            if let Some(rt) = super::rt() {
+                let id = super::object_id(&self.id.0, "channel", &rt);
+                rt.chan_sender_drop(id);
+            }
+        }
+    }
+
+    impl<T> fmt::Debug for Sender<T> {
+        fn fmt(&self, f: &mut fmt::Formatter<'_>) -> fmt::Result {
+            f.write_str("Sender { .. }")
+        }
+    }
+
+    impl<T> Receiver<T> {
+        pub fn recv(&self) -> Result<T, RecvError> {
+            if let Some(rt) = super::rt() {
+                let id = super::object_id(&self.id.0, "channel", &rt);
+                if !rt.chan_recv(id) {
+                    return Err(RecvError);
+                }
+            }
+            self.inner.recv()
+        }
+    }
+
+    impl<T> Drop for Receiver<T> {
+        fn drop(&mut self) {
+            if let Some(rt) = super::rt() {
+                let id = super::object_id(&self.id.0, "channel", &rt);
+                rt.chan_receiver_drop(id);
+            }
+        }
+    }
+
+    impl<T> fmt::Debug for Receiver<T> {
+        fn fmt(&self, f: &mut fmt::Formatter<'_>) -> fmt::Result {
+            f.write_str("Receiver { .. }")
+        }
+    }
+}
+
+// ---------------------------------------------------------------------------------------- thread
+
+pub mod thread {
+    use std::io;
+
+    #[derive(Default)]
+    pub struct Builder {
+        name: Option<String>,
+    }
+
+    pub struct JoinHandle<T> {
+        real: Option<std::thread::JoinHandle<T>>,
+        token: Option<u64>,
+    }
+
+    impl Builder {
+        pub fn new() -> Builder {
+            Builder { name: None }
+        }
+        pub fn name(mut self, name: String) -> Builder {
+            self.name = Some(name);
+            self
+        }
+        pub fn spawn<F>(self, f: F) -> io::Result<JoinHandle<()>>
+        where
+            F: FnOnce() + Send + 'static,
+        {
+            match super::rt() {
+                Some(rt) => {
+                    let token = rt.spawn(self.name, Box::new(f));
+                    Ok(JoinHandle {
+                        real: None,
+                        token: Some(token),
+                    })
+                }
+                None => {
+                    let mut b = std::thread::Builder::new();
+                    if let Some(n) = self.name {
+                        b = b.name(n);
+                    }
+                    b.spawn(f).map(|h| JoinHandle {
+                        real: Some(h),
+                        token: None,
+                    })
+                }
+            }
+        }
+    }
+
+    impl JoinHandle<()> {
+        pub fn join(self) -> std::thread::Result<()> {
+            if let Some(token) = self.token {
+                let ok = match super::rt() {
+                    Some(rt) => rt.join(token),
+                    None => true,
+                };
+                return if ok { Ok(()) } else { Err(Box::new("controlled thread panicked")) };
+            }
+            match self.real {
+                Some(h) => h.join(),
+                None => Ok(()),
+            }
+        }
+    }
+}
+
+// ---------------------------------------------------------------------------------------- timer
+
+pub mod timer {
+    pub struct Timer {
+        real: Option<::timer::Timer>,
+        virt: Option<(std::sync::Arc<dyn super::Runtime>, u64)>,
+    }
+
+    pub struct Guard {
+        real: Option<::timer::Guard>,
+        virt: Option<(std::sync::Arc<dyn super::Runtime>, u64)>,
+    }
+
+    impl Timer {
+        #[allow(clippy::new_without_default)]
+        pub fn new() -> Timer {
+            match super::rt() {
+                Some(rt) => {
+                    let id = rt.timer_new();
+                    Timer {
+                        real: None,
+                        virt: Some((rt, id)),
+                    }
+                }
+                None => Timer {
+                    real: Some(::timer::Timer::new()),
+                    virt: None,
+                },
+            }
+        }
+
+        pub fn schedule_with_delay<F>(&self, delay: chrono::Duration, cb: F) -> Guard
+        where
+            F: 'static + FnMut() + Send,
+        {
+            match (&self.virt, &self.real) {
+                (Some((rt, id)), _) => {
+                    let item = rt.timer_schedule(*id, delay.num_milliseconds(), Box::new(cb));
+                    Guard {
+                        real: None,
+                        virt: Some((rt.clone(), item)),
+                    }
+                }
+                (None, Some(t)) => Guard {
+                    real: Some(t.schedule_with_delay(delay, cb)),
+                    virt: None,
+                },
+                (None, None) => unreachable!(),
+            }
+        }
+    }
+
+    impl Drop for Timer {
+        fn drop(&mut self) {
+            if let Some((rt, id)) = self.virt.take() {
+                rt.timer_drop(id);
+            }
+        }
+    }
+
+    impl Guard {
+        /// The scheduled callback stays active when the guard is dropped.
+        pub fn ignore(mut self) {
+            if let Some(g) = self.real.take() {
+                g.ignore();
+            }
+            self.virt.take();
+        }
+    }
+
+    impl Drop for Guard {
+        fn drop(&mut self) {
+            if let Some((rt, item)) = self.virt.take() {
+                rt.timer_cancel(item);
+            }
+        }
+    }
+}
